@@ -230,7 +230,10 @@ class MemoryWorkflowStore(AbstractWorkflowStore):
                     continue
 
             for event in batch:
-                yield event
                 cursor += 1
+                if event.sequence <= after_sequence:
+                    # cursor beyond the end of the log at subscribe time
+                    continue
+                yield event
                 if self._is_terminal_event(event):
                     return
